@@ -149,7 +149,7 @@ PROPS = {
     "C03": {
         "level": "exploration",
         "interpreters": PRODUCERS,
-        "rule": "hand-built CodeData, complete products: block graphs (2-4 blocks x NOP paddings {0,1,b-1,b} (thorough {0,1,b-2..b+1}) around the 1->2 unit jump boundary b of the running interpreter x one jump from {JUMP_ABSOLUTE, POP_JUMP_IF_FALSE -> any block; JUMP_FORWARD, FOR_ITER -> later block}; 3 blocks x all pairs of jumps from different blocks; thorough: paddings around the 2->3 unit boundary); operand tables of 0,1,2,255,256,257,65537 (thorough 65535..65537) names/constants/locals/cells with and without repeated uses, free-variable operands after 0..257 cell variables followed by a jump; all assignments of 8 line values (+None on 3.10) to 3 line slots x first line {1,3,200} x short/long middle run; all ordered pairs of S-CONST loaded by two LOAD_CONST; all signature shapes x function type x docstring {None, plain, lone surrogate} x body x free variable; override consistency: 3 operands over 2 values x overrides {None,0,1,2,5}^3 x 4 table kinds; single edits (delete each instruction, clear additional args, clear each override) of every decoded object of a spread of 1500 (thorough 15000) grammar programs. Oracle: to_code terminates; CPython's reading of the result (R-DIS, PyCode_Addr2Line, header, inspect) equals the data instruction by instruction; decoding again equals the input up to normalization; inconsistent overrides raise or stay in-table with the given values.",
+        "rule": "hand-built CodeData, complete products: block graphs (2-4 blocks x NOP paddings {0,1,b-1,b} (thorough {0,1,b-2..b+1}) around the 1->2 unit jump boundary b of the running interpreter x one jump from {JUMP_ABSOLUTE, POP_JUMP_IF_FALSE -> any block; JUMP_FORWARD, FOR_ITER -> later block}; 3 blocks x all pairs of jumps from different blocks; thorough: paddings around the 2->3 unit boundary); operand tables of 0,1,2,255,256,257,65537 (thorough 65535..65537) names/constants/locals/cells with and without repeated uses, free-variable operands after 0..257 cell variables (referenced by instructions, or listed only as additional args) followed by a jump; all assignments of 8 line values (+None on 3.10) to 3 line slots x first line {1,3,200} x short/long middle run; all ordered pairs of S-CONST loaded by two LOAD_CONST; all signature shapes x function type x docstring {None, plain, lone surrogate} x body x free variable; override consistency: 3 operands over 2 values x overrides {None,0,1,2,5}^3 x 4 table kinds; single edits (delete each instruction, clear additional args, clear each override) of every decoded object of a spread of 1500 (thorough 15000) grammar programs. Oracle: to_code terminates; CPython's reading of the result (R-DIS, PyCode_Addr2Line, header, inspect) equals the data instruction by instruction; decoding again equals the input up to normalization; inconsistent overrides raise or stay in-table with the given values.",
         "assumptions": TRUST + ["on <=3.9 line_number=None is outside the alphabet (lnotab cannot say 'no line'; to_code refuses it)"],
         "required_reach": {"quick": ["jump-units:1", "jump-units:2", "operand-units:2", "operand-units:3", "encodes-ok:G1", "encodes-ok:G2", "encodes-ok:T", "encodes-ok:LN", "encodes-ok:SG", "encodes-ok:ED", "inconsistent-overrides-refused", "overrides-accepted-consistent", "const-pair-ok:same", "const-pair-ok:distinct"], "thorough": ["jump-units:3"]},
     },
